@@ -9,6 +9,8 @@ CONSTANTS
   HandlerSeqs <- R_HSeqs
   UpProgs <- R_UpProgs
   CRProg <- R_CR
+  Forms = {"fresh"}
+  Colls = {}
   QuitOn = FALSE
   QuitDeferred = FALSE
   DefCap = 1
@@ -25,4 +27,5 @@ PROPERTY FiredForever
 PROPERTY NeverEarly
 PROPERTY LifeLogged
 PROPERTY CROnce
+PROPERTY DepsFixed
 CHECK_DEADLOCK FALSE
